@@ -225,19 +225,27 @@ PROPS = {
     "C14": {
         "lean_modules": ["TemporalModel.Props.C14"],
         "suites": ["c14"],
-        "spec_ops": {"zdt_law": "zdt_law_spec", "zdt_sod": "zdt_sod_spec", "zdt_hid": "zdt_hid_spec"},
+        "spec_ops": {"zdt_law": "zdt_law_spec", "zdt_sod": "zdt_sod_spec", "zdt_hid": "zdt_hid_spec", "du_zlaw": "du_zlaw_spec"},
         "level_text": "Proof: C14_add_time_exact (no date units: exact instant addition, range-checked), C14_add_wall_then_exact "
                       "(date units: date part on the wall-clock date, time of day kept, re-resolved with `compatible`, then the time "
                       "part on the exact timeline), C14_until_exact_elapsed (largest unit hours..seconds: the exact elapsed time, zone "
                       "irrelevant), C14_start_of_day_first (first instant reading midnight) and C14_start_of_day_gap (skipped "
                       "midnight, any gap size: the transition instant, equal to the specification's first instant of the day), "
-                      "C14_hours_in_day. Tie: add/subtract/until/since (all largest units; time units with rounding)/start_of_day/"
-                      "hours_in_day/with_plain_time over fixed offsets and random synthetic zones with instants within a day of "
-                      "transitions; the inverse law a.add(a.until(b, date unit)) = b, the first-instant-of-day and real-day-length "
-                      "specifications are compared with the implementation directly (spec_ops).",
-        "level_note": "Trusted: as C13. until/since with date largest units AND rounding (RoundRelativeDuration with a time zone) "
-                      "is not modelled (the driver answers ?unmodelled for such lines; the generator does not produce them): that "
-                      "path is exercised by the C03 sweep only. The inverse law is checked, not proved.",
+                      "C14_hours_in_day; for rounding relative to a zoned date-time C14_zoned_time_rounding (NudgeToZonedTime: the time "
+                      "part is a multiple of the step, a day is added exactly when the rounded time reaches the end of the real local "
+                      "day - 23, 24, 25 h ... - and then only the excess over that day is rounded again; the reported instant is the "
+                      "bracket end plus the time part and lies within one step, or two on a day that is not a whole number of steps, of "
+                      "the exact destination), C14_compare_zoned_orders_destinations, and C14_relative_without_zone (the zone-"
+                      "parametrised RoundRelativeDuration / TotalRelativeDuration are literally the C08 functions when no zone is given, "
+                      "so the C08 theorems about the shared exact bracket rounding carry over). Tie: add/subtract/until/since (all "
+                      "largest units, with and without rounding, calendar / day / time smallest units)/start_of_day/hours_in_day/"
+                      "with_plain_time and Duration::round / total / compare relative to a ZonedDateTime over fixed offsets and random "
+                      "synthetic zones with instants within a day of transitions; the inverse law a.add(a.until(b, date unit)) = b, "
+                      "the first-instant-of-day and real-day-length specifications are compared with the implementation directly "
+                      "(spec_ops).",
+        "level_note": "Trusted: as C13. The inverse law is checked, not proved. The zoned calendar-unit nudge and bubbling are "
+                      "modelled and compared (Model/RelativeZoned.lean); what is proved about them is the shared rounding core (C08) "
+                      "and the time-unit step (C14_zoned_time_rounding).",
         "why_difference_is_violation":
             "The model performs date arithmetic on the wall clock and time arithmetic on the timeline as proved in C14_*; the "
             "implementation returned a different instant, duration, start of day or day length.",
